@@ -109,14 +109,19 @@ class Tree:
         if relative_to is not None and check_ancestor and not self.is_ancestor(node, relative_to):
             raise ValueError("relative_to must be an ancestor of the node")
 
+        # Walk up iteratively: trees may be deeper than the recursion limit
+        depth = 0
         parent = self.get_parent(node)
-        if parent is None:
-            return 0
 
-        if relative_to is not None and parent is relative_to:
-            return 1
+        while parent is not None:
+            depth += 1
 
-        return self.get_depth(parent, relative_to, False) + 1
+            if relative_to is not None and parent is relative_to:
+                break
+
+            parent = self.get_parent(parent)
+
+        return depth
 
     def get_ancestors(self, node: ASTNode) -> Iterator[ASTNode]:
         """Iterates over all ancestors of the `node`.
